@@ -211,7 +211,16 @@ def logic_part(pid, ms, tier, seed, with_cycles=False, options=({},)):
                     mism = compare(c, m, stim, opts, cycles=cyc)
                     if mism:
                         a2 = dict(args, cycles=cyc)
-                        b.violation(key + ':cycle', f'LogicSim.cycle({cyc}) on {sig}: {mism[0]}', 'bounded.logic_drv:run_case', a2,
+                        k2 = key + ':cycle'
+                        if has_arity_gap(c):
+                            # only the known reading difference (arity by name vs by highest connected pin)?
+                            evaln.ARITY_BY_HIGHEST_PIN = True
+                            try:
+                                if not compare(c, m, stim, opts, cycles=cyc):
+                                    k2 = ':'.join(key.split(':')[:3]) + ':declared-arity-above-highest-connected-pin'
+                            finally:
+                                evaln.ARITY_BY_HIGHEST_PIN = False
+                        b.violation(k2, f'LogicSim.cycle({cyc}) on {sig}: {mism[0]}', 'bounded.logic_drv:run_case', a2,
                                     function='kyupy.logic_sim.LogicSim.cycle')
         if tier == 'quick' or True:
             try:
